@@ -630,12 +630,26 @@ Arguments callee : clear implicits.
 (* ------------------------------------------------------------------ *)
 (* instances of NumLit                                                  *)
 
-Definition XF64 : NumLit float := {| nlit := fun b _ _ => b; next := fun _ _ => None |}.
+(* floor as a double: exact ([f_floor] is exact below 2^63, where its result is
+   representable; a finite double of larger magnitude is an integer; NaN and the
+   infinities are returned unchanged).  floor(-0.0) is +0 here, -0.0 in C: the
+   comparators of the tie ignore the sign of zero. *)
+Definition f_floorf (x : float) : float :=
+  match f_floor x with Some z => f_ofZ z | None => x end.
+
+Definition F64_ext (f : string) (l : list float) : option float :=
+  match l with
+  | [x] => if String.eqb f "floor" then Some (f_floorf x) else None
+  | _ => None
+  end.
+
+Definition XF64 : NumLit float := {| nlit := fun b _ _ => b; next := F64_ext |}.
 
 Definition R_ext (f : string) (l : list R) : option R :=
   match l with
   | [x] => if String.eqb f "exp" then Some (exp x)
            else if String.eqb f "log" then Some (ln x)
+           else if String.eqb f "floor" then Some (IZR (Int_part x))
            else None
   | _ => None
   end.
